@@ -345,8 +345,8 @@ func (r *SparseReal64Vector) VdotM(a ConstVector, b ConstMatrix) Vector {
     panic("result and argument must be different vectors")
   }
   t := NullReal64()
-  for i := 0; i < n; i++ {
-    r.AT(i).Reset()
+  for j := 0; j < m; j++ {
+    r.AT(j).Reset()
   }
   for it := b.ConstIterator(); it.Ok(); it.Next() {
     i, j := it.Index()
